@@ -86,6 +86,10 @@ type LeaderController interface {
 type leaderController struct {
 	sync.RWMutex
 
+	// Serializes offset allocation and WAL append of concurrent writes, so that
+	// entries reach the WAL in the order in which their offsets were assigned
+	appendMutex sync.Mutex
+
 	namespace         string
 	shardId           int64
 	status            proto.ServingStatus
@@ -824,6 +828,9 @@ func (lc *leaderController) writeBlock(ctx context.Context, requestSupplier func
 
 func (lc *leaderController) write(ctx context.Context, requestSupplier func(offset int64) *proto.WriteRequest, cb concurrent.Callback[*proto.WriteResponse]) {
 	timer := lc.writeLatencyHisto.Timer()
+	lc.appendMutex.Lock()
+	defer lc.appendMutex.Unlock()
+
 	lc.Lock()
 	if err := checkStatusIsLeader(lc.status); err != nil {
 		lc.Unlock()
